@@ -232,8 +232,17 @@ def py_mod(a, b):
     return a % b
 
 
-def _simple(e):
-    return e[0] in ("num", "var", "pi")
+def _simple(e, env=None):
+    """an operand whose float value is exact: a literal, or a name that is an input (state, parameter, time) -
+    not an intermediate, whose value the implementation may compute by a differently rounded formula"""
+    if e[0] in ("num", "pi"):
+        return True
+    if e[0] == "neg":
+        return _simple(e[1], env)
+    if e[0] == "var":
+        inputs = getattr(env, "inputs", None)
+        return True if inputs is None else e[1] in inputs
+    return False
 
 
 def evaluate(e, env, pr: Probe):
@@ -306,7 +315,7 @@ def evaluate(e, env, pr: Probe):
         if k == "rel":
             a = _num(evaluate(e[2], env, pr))
             b = _num(evaluate(e[3], env, pr))
-            pr.cmp(a, b, _simple(e[2]) and _simple(e[3]))
+            pr.cmp(a, b, _simple(e[2], env) and _simple(e[3], env))
             op = e[1]
             r = {"Lt": a < b, "Gt": a > b, "Le": a <= b, "Ge": a >= b, "Eq": a == b, "Ne": a != b}[op]
             pr.branches.append(r)
@@ -566,6 +575,13 @@ class Gen:
                     a = ("bin", "*", ("num", rng.choice(["0.1", "0.5", "0.25"])), a)
             elif f == "tan":
                 a = ("bin", "*", ("num", "0.25"), ("fn", "sin", a))
+            if f in ("sin", "cos") and rng.random() < 0.25:
+                # multiples of pi among the terms of a nested sum (sympy shifts the argument of a periodic function by them)
+                b = self.expr(names, max(1, d - 2))
+                pim = rng.choice([("pi",), ("bin", "*", ("num", "2"), ("pi",)), ("bin", "/", ("pi",), ("num", "2")), ("neg", ("pi",))])
+                a = rng.choice([("bin", "+", ("bin", "+", a, pim), b), ("bin", "-", ("bin", "-", pim, a), b),
+                                ("bin", "+", ("bin", "+", pim, a), b), ("neg", ("bin", "+", ("bin", "-", a, pim), b)),
+                                ("bin", "-", ("bin", "-", pim, ("num", "2.0")), ("num", "0"))])
             return ("fn", f, a)
         if r < 0.78 + self.p_cond and not self.smooth_only:
             if self.allow_ccond and rng.random() < 0.2:
